@@ -747,6 +747,13 @@ func (f *Frame) enterLoop(li *loopInfo, b *ssa.BasicBlock, entry *State, reach s
 		}
 		hs.heap[k] = nv
 	}
+	for _, k := range names {
+		if k != wmKey {
+			if q := c.heapWF(k, hs.get(k), hs.wm()); q != "" && hs.heap[k] != entry.heap[k] {
+				c.assert(q)
+			}
+		}
+	}
 	hs.marks = map[string]string{}
 	li.havocEnv = map[ssa.Value]SV{}
 	for _, phi := range li.phis {
